@@ -2,6 +2,8 @@ import Std.Data.HashSet
 import Hertz.Driver.Core
 import Hertz.Model.Shutdown
 import Hertz.Spec.Shutdown
+import Hertz.Model.ShutdownSpin
+import Hertz.Spec.ShutdownArriving
 /-!
 Driver for property C18.
 
@@ -151,6 +153,7 @@ def validate (cfg : Cfg) (nHooks : Nat) (tr : List TEv) : Option Nat × Array No
 
 structure Script where
   np : Bool
+  stream : Bool := false
   wMs : Nat
   shutAt : Nat
   second : Nat
@@ -165,7 +168,7 @@ def parseScript : List String → Option Script
     let nc ← rest.head? >>= nat?
     let conns := rest.drop 1
     if conns.length ≠ nc then none
-    pure { np := tr == "np", wMs := ← nat? w, shutAt := ← nat? sa, second := ← nat? sec, hooks, conns }
+    pure { np := tr.startsWith "np", stream := tr.endsWith "!s", wMs := ← nat? w, shutAt := ← nat? sa, second := ← nat? sec, hooks, conns }
   | _ => none
 
 def hookClass (w : Nat) (hs : List Nat) : String :=
@@ -178,10 +181,128 @@ def census (s : State) : String :=
   let i := cnt fun p => p == .idle
   s!"h{min h 3}i{min i 3}"
 
+
+/-! ### X18: requests that are still arriving, and the process under `Spin` -/
+
+open Hertz.ShutdownSpec (XEv XTEv SEv STEv) in
+def parseXEv (tok : String) : Option XTEv :=
+  match tok.splitOn "," with
+  | ["P", c, k, g, n, t] => do pure ⟨.P (← nat? c) (← nat? k) (← nat? g) (← nat? n), ← nat? t⟩
+  | ["PZ", c, k, t] => do pure ⟨.PZ (← nat? c) (← nat? k), ← nat? t⟩
+  | _ => (parseEv tok).map fun e => ⟨.base e.ev, e.t⟩
+
+def isXTok (tok : String) : Bool := tok.startsWith "P," || tok.startsWith "PZ,"
+
+/-- Replays what was observed of connection `c` (one that carried a request sent in two parts) on the model
+`Hertz.Arrive` of the source as it stands: accept, `arrive` for the first part, `arrive` for the rest (at the `PZ` event or,
+if the handler entry is recorded first, at `Q`), `handlerRet` at `X`, `shutBegin` at the first `S`; a response must be
+complete and must have been written by the model; a close by the server must be one the model knows.
+`none` = accepted (or not judged: the connection was accepted after the call, or garbage was sent on it); `some msg` = the model has no such run. -/
+def arriveValidate (np : Bool) (W : Nat) (c : Nat) (tr : List ShutdownSpec.XTEv) : Option String := Id.run do
+  -- garbage bytes on the connection (error response + close) are not part of `Hertz.Arrive`: not judged here
+  if tr.any (fun e => e.ev == .base (.B c)) then return none
+  let mut s : Arrive.State := {}
+  let mut i := 0
+  for e in tr do
+    let ph : Option Arrive.Ph := (s.conns[0]?).map (·.ph)
+    let rest : List Arrive.Act := match ph with
+      | some (.reading k n) => [.arrive 0 (n - k) n]
+      | _ => []
+    let acts : Option (List Arrive.Act) := match e.ev with
+      | .base (.A c') =>
+        if c' ≠ c || !s.conns.isEmpty then some [] else if s.shut then none else some [.accept]
+      | .base (.S _) => if s.shut then some [] else some [.shutBegin]
+      -- the client's write may be recorded before the server's OnAccept hook has recorded the accept
+      | .P c' _ g n =>
+        -- (StreamRequestBody: the handler entry may even be recorded before the client has recorded its write)
+        -- netpoll, written after the call: the scan of the shutdown loop may have closed the (idle) connection before the
+        -- bytes arrived although the client's write succeeded - either outcome is a run of the model; not judged
+        if c' ≠ c then some [] else if np && s.shut then none else if ph == some .handling then some []
+        else if !s.conns.isEmpty then some [.arrive 0 g n]
+        else if s.shut then none else some [.accept, .arrive 0 g n]
+      | .PZ c' _ => if c' = c then some rest else some []
+      | .base (.Q c' _ _) =>
+        if c' ≠ c then some [] else
+        match ph with
+        | some .idle => some [.arrive 0 1 1]
+        | some (.reading _ _) => some rest
+        | some .handling => some []
+        | _ => some [.handlerRet 0]  -- refused by the model: a handler on a closed / unknown connection
+      | .base (.X c' _ _) => if c' = c then some [.handlerRet 0] else some []
+      | .base (.R c' k _ complete) =>
+        if c' ≠ c then some [] else
+        match s.conns[0]? with
+        | some cn => if complete && k < cn.resps.length then some [] else some [.readTimeout 0]
+        | none => some [.readTimeout 0]
+      | .base (.E c') =>
+        if c' ≠ c then some [] else
+        match ph with
+        | some .closed => some []
+        | some .idle => some [.npCloseIdle 0]
+        | _ => some [.readTimeout 0]
+      | .base (.C c') =>
+        if c' ≠ c then some [] else
+        match ph with
+        | some .idle | some (.reading _ _) => some [.peerClose 0]
+        | _ => some []
+      | .base (.F c' _) => if c' = c && ph.isSome then some [.readTimeout 0] else some []
+      | _ => some []
+    match acts with
+    | none => return none   -- accepted after the call: not a connection this check is about
+    | some acts =>
+      match Arrive.run Arrive.Code.current np W s (.advance (e.t - s.now) :: acts) with
+      | some s' => s := s'
+      | none => return some s!"ARRIVE-REJECT@{i}:conn{c}"
+    i := i + 1
+  return none
+
+/-- census of the two-part requests at the first `Shutdown` call: `r` still arriving, `d` complete -/
+def arriveCensus (tr : List ShutdownSpec.XTEv) : String :=
+  let tS := (tr.find? fun e => match e.ev with | .base (.S _) => true | _ => false).map (·.t)
+  match tS with
+  | none => ""
+  | some tS =>
+    let ps := tr.filter fun e => match e.ev with | .P _ _ _ _ => true | _ => false
+    if ps.isEmpty then "" else
+    let arriving := ps.filter fun e => match e.ev with
+      | .P c k _ _ => e.t < tS && !(tr.any fun z => z.ev == .PZ c k && z.t < tS)
+      | _ => false
+    let never := ps.filter fun e => match e.ev with
+      | .P c k _ _ => !(tr.any fun z => z.ev == .PZ c k)
+      | _ => false
+    s!":part{min arriving.length 3}{if never.isEmpty then "" else "n"}"
+
+def parseSEv (tok : String) : Option ShutdownSpec.STEv :=
+  match tok.splitOn "," with
+  | ["SIG", t] => do pure ⟨.SIG, ← nat? t⟩
+  | ["R", i, res, t] => do pure ⟨.R (← nat? i) res, ← nat? t⟩
+  | ["LS", t] => do pure ⟨.LS, ← nat? t⟩
+  | ["EXIT", code, t] => do pure ⟨.EXIT code, ← nat? t⟩
+  | _ => none
+
+/-- the canonical run of `Hertz.Spin` for a scenario of op `c18spin` (times in ms):
+`(Spin returned / process exited, duration signal → exit, connections still in their handler at exit, listener open at exit)` -/
+def spinPredict (mode : String) (W sigAt nreq hdur : Nat) : Option (Bool × Nat × Nat × Bool) :=
+  let cfg : Spin.Cfg := { exitWait := W, deregFails := mode == "dereg" }
+  let up : List Spin.Act := [.runInit, .markRunning, .listen] ++ List.replicate nreq .accept
+  let acts : List Spin.Act :=
+    if mode == "slowrun" then [.runInit, .advance sigAt, .signal, .shutEnter, .spinPost, .procExit]
+    else if mode == "dereg" then up ++ [.advance sigAt, .signal, .shutEnter, .hooksEnd, .shutReturn, .spinPost, .procExit]
+    else up ++ [.advance sigAt, .signal, .shutEnter, .hooksEnd] ++ (if nreq > 0 then [.advance hdur] else []) ++
+      List.replicate nreq .connDone ++ [.drainDone, .shutReturn, .spinPost, .procExit]
+  match Spin.runPrompt Spin.Code.current cfg {} acts with
+  | some s =>
+    match s.spin with
+    | .exited t => some (true, t - s.sigAt, s.active, s.lnOpen)
+    | _ => some (false, 0, s.active, s.lnOpen)
+  | none => none
+
 def handle : Handler
   | "c18" :: script, impl => do
     let sc ← parseScript script
-    let tr ← impl.mapM parseEv
+    let xtr ← impl.mapM parseXEv
+    let implB := impl.filter (!isXTok ·)
+    let tr ← implB.mapM parseEv
     let cfg : Cfg := { exitWait := sc.wMs * 1000, tick := if sc.np then 0 else 10000, maxWait := 30000000, netpoll := sc.np }
     let nh := sc.hooks.length
     let (bad, ns) := validate cfg nh tr
@@ -189,12 +310,15 @@ def handle : Handler
     let witnessOk := match bad, ns[0]? with
       | none, some n => (run cfg (init nh) n.hist.reverse).isSome
       | _, _ => false
+    -- X18: the connections that carried a request sent in two parts, replayed on `Hertz.Arrive`
+    let pConns := (xtr.filterMap fun e => match e.ev with | .P c _ _ _ => some c | _ => none).eraseDups
+    let arriveBad := pConns.filterMap fun c => arriveValidate sc.np (sc.wMs * 1000) c xtr
     let out := match bad with
-      | none => if witnessOk then impl else ["WITNESS-REJECTED-BY-run"]
-      | some i => [s!"REJECT@{i}:{impl.getD i ""}"]
+      | none => if !witnessOk then ["WITNESS-REJECTED-BY-run"] else if arriveBad.isEmpty then impl else arriveBad
+      | some i => [s!"REJECT@{i}:{implB.getD i ""}"]
     let p : ShutdownSpec.Params := { exitWait := sc.wMs * 1000, tick := 10000, slack := 1000000, nHooks := nh }
     let trA := tr.toArray
-    let viol := ShutdownSpec.violations p trA
+    let viol := ShutdownSpec.violations p trA ++ ShutdownSpec.partlyReceived p xtr.toArray
     -- tag: transport, exit-wait class, hooks, what the connections were doing when Shutdown was called,
     -- how the call returned, second call
     let atCall : String := match ns[0]? with
@@ -212,7 +336,29 @@ def handle : Handler
       | none => "norun"
     let late := ShutdownSpec.lateDropped trA
     pure { out, spec := viol.isEmpty, specNote := "; ".intercalate (viol.take 3),
-           tag := s!"c18:{if sc.np then "np" else "std"}:w{if sc.wMs < 100 then "s" else if sc.wMs < 1000 then "m" else "l"}:k{hookClass sc.wMs sc.hooks}:{atCall}:{ret}:s{sc.second}{if late > 0 then ":late-dropped" else ""}" }
+           tag := s!"c18:{if sc.np then "np" else "std"}{if sc.stream then "!s" else ""}:w{if sc.wMs < 100 then "s" else if sc.wMs < 1000 then "m" else "l"}:k{hookClass sc.wMs sc.hooks}:{atCall}:{ret}:s{sc.second}{if late > 0 then ":late-dropped" else ""}{arriveCensus xtr}" }
+  | ["c18spin", tr, w, mode, sigAt, _onRun, nreq, hdur], impl => do
+    -- the server as a process of its own under Hertz.Spin(), stop signal at `sigAt`: the model's canonical run says
+    -- whether the process ends, whether requests in progress are lost (Spin returned with connections still in their
+    -- handler), whether anything can be served afterwards (never: the process is gone)
+    let w ← nat? w
+    let sigAt ← nat? sigAt
+    let nreq ← nat? nreq
+    let hdur ← nat? hdur
+    let evs ← impl.mapM parseSEv
+    let (mExit, mDur, mActive, mLn) ← spinPredict mode w sigAt nreq hdur
+    let iExit := evs.any fun e => e.ev == .EXIT "0"
+    let iLost := evs.any fun e => match e.ev with | .R _ res => res != "full" | _ => false
+    let iLate := evs.any fun e => e.ev == .LS
+    let agree := iExit == mExit && iLost == (mActive > 0) && !iLate
+    let out := if agree then impl
+      else [s!"MODEL:exit={boolTok mExit},after={mDur}ms,in-handler-at-exit={mActive},listener-open-at-exit={boolTok mLn},served-later=0"]
+    let p : ShutdownSpec.SParams := { exitWait := w * 1000, running := mode != "slowrun" }
+    let viol := ShutdownSpec.spinViolations p evs
+    let onlyInflight := !viol.isEmpty && viol.all (·.startsWith "inflight_complete")
+    pure { out, spec := viol.isEmpty, specNote := "; ".intercalate (viol.take 3),
+           cls := if mode == "dereg" && onlyInflight then "dereg-error-skips-drain" else "",
+           tag := s!"c18spin:{tr}:{mode}:n{min nreq 3}:{if mDur == 0 then "at-once" else "drained"}" }
   | ["c18race", _w], impl => do
     -- Shutdown between MarkAsRunning and Listen: the model's run
     let cfg : Cfg := { exitWait := 100, tick := 10 }
